@@ -28,7 +28,7 @@ SHARD_TIMEOUT = {"quick": 240, "thorough": 3000}
 
 
 def plan(tier, seed):
-    n = 10 if tier == "quick" else 200
+    n = 50 if tier == "quick" else 400
     return [dict(seed=seed, shard=i, n=n) for i in range(16)]
 
 
